@@ -19,7 +19,7 @@ CHECKS = {
          'Every single injection of 15 string markers and 100 directive-map markers into every base tree with <=4 (thorough 5) nodes, each evaluated plain, under $output:false, inside $encode:json and as a lower layer; every $required lower layer x every subset of overrides. Invariant: no $required / $lowercase token in any successful output (or in encoded text).',
          'Invariant oracle needs no model; definite accept/reject expectations only where the statement fixes them.', '4/C07'),
  'C08': ('E1+E4+E6', 'bounded-exhaustive input enumeration executed under a deterministic step budget on an overlay-instrumented build, with crash-contained worker subprocesses and a CLI exit-contract driver',
-         'All byte strings of length <=5 (thorough 6) over a 14-byte alphabet as .json and .toml files; every single (thorough: double) directive injection into every base tree in 5 layerings and 3 file formats; all 125k three-key reference graphs; all 512x3 $parent digraphs; 39 hand-written YAML texts; CLI exit contract for all four tools on a subset. Oracle: returns output xor error, no panic, step budget not exceeded, worker survives, definite cycles are errors.',
+         'All byte strings of length <=5 (thorough 6) over a 14-byte alphabet as .json and .toml files; every single (thorough: double) directive injection into every base tree in 5 layerings and 3 file formats; all 125k three-key reference graphs; all 512x3 $parent digraphs; all 255x4 symlink layouts of four layer files in two directories; 39 hand-written YAML texts; CLI exit contract for all four tools on a subset. Oracle: returns output xor error, no panic, step budget not exceeded, worker survives, definite cycles are errors.',
          'Step budget counts instrumented function/loop entries of package bkl only; dependencies are covered by the worker watchdog. Cycle => error is asserted only for pure whole-value reference cycles and $parent cycles.', '4/C08'),
  'C09': ('E4', 'stateless choice-point DFS over all map-iteration orders within a deviation bound and over all interleavings of shared-variable accesses within a pre-emption bound, on an overlay-instrumented build; separate free-running -race pass',
          'For every input (hand-picked order-sensitive documents plus generated trees and merge pairs) all executions with <=2 (thorough 3) non-default picks at every map range site vinstr finds in the working tree, and a second pass that also controls every maps.Keys/Values/All call site (so a comparator that is not a total order shows); all 2-thread (<=2 pre-emptions) and 3-thread (<=1) interleavings at accesses to mutable package-level variables, and every hand-picked input alone under the same scheduler - goroutines the library itself starts (go statements are rewritten to scheduler threads, sync.Mutex/RWMutex/WaitGroup/Once are routed to a scheduler-aware stand-in package) become threads whose every completion order is explored; 16-goroutine free-running pass under the race detector; two fresh CLI processes per input. Every execution must produce the observation of the default execution.',
